@@ -124,6 +124,21 @@ def handle (j : Json) : Except String Json := do
         pure (info, spec)
     return Json.mkObj [("model", exceptToJson (fun l => Json.arr (l.map Val.toJson).toArray) model),
                        ("info", info), ("spec", spec)]
+  | "weights" =>
+    -- {"op":"weights","s":[cells of ONE slice],"fields":[..],"tol":rat,"impl":[[lag,[[field,[p..]]..]]..]}
+    let sl ← cellsFromJson (← j.getObjVal? "s")
+    let fields ← (← (← j.getObjVal? "fields").getArr?).toList.mapM (·.getStr?)
+    let tol ← ratFromJson (← j.getObjVal? "tol")
+    let model := ataWeights sl fields
+    let toJ (F : Factors) : Json := Json.arr (F.map fun lt => Json.arr #[ratToJson lt.1,
+      Json.arr (lt.2.map fun fa => Json.arr #[Json.str fa.1, ratsToJson fa.2]).toArray]).toArray
+    let spec ← match j.getObjVal? "impl" with
+      | .ok v => if v.isNull then pure Json.null else do
+          let impl ← factorsFromJson v
+          pure <| bools [("weights", Spec.C17.weightsOk sl fields tol impl),
+                         ("probability", Spec.C17.probVectorsOk tol impl)]
+      | .error _ => pure Json.null
+    return Json.mkObj [("model", exceptToJson toJ model), ("spec", spec)]
   | "moments" =>
     -- {"op":"moments","d":[rat..],"impl":{"mean":rat,"var":rat,"n":nat,"tolM":rat,"tolV":rat}|null}
     let d ← ratsFromJson (← j.getObjVal? "d")
